@@ -55,6 +55,8 @@ void _ZN10QSslSocket21startServerEncryptionEv(char *self) { c16_ntls++; }
 /* inactivity timer: no behaviour */
 void _ZN6QTimer5startEv(char *self) { }
 void _ZN6QTimer4stopEv(char *self) { }
+static uint32_t c16_nsingleshot;
+void _ZN6QTimer14singleShotImplEiN2Qt9TimerTypeEPK7QObjectPN9QtPrivate15QSlotObjectBaseE(uint32_t ms, uint32_t type, char *recv, char *slot) { c16_nsingleshot++; }
 
 /* ---- serializeXml: the bytes written are not inspected, only classified by the type that was serialized ---- */
 void _ZN5QXmpp7Private12serializeXmlEPKvPFvS2_P16QXmlStreamWriterE(char *ret, char *packet, char *fn) { QSD(ret) = c16_blk(0); }
@@ -86,6 +88,9 @@ void vp_c16_sig_element(char *out) { DN(out) = c16_el_node; }
 
 /* ---- cuts inside QXmppIncomingClient.cpp: log text only / stream features content ---- */
 void _ZNK26QXmppIncomingClientPrivate6originEv(char *ret, char *self) { QSD(ret) = SHARED_NULL; }
+static uint32_t c16_nfeatures;
+void _ZN19QXmppIncomingClient18sendStreamFeaturesEv(char *self) { c16_nfeatures++; }
+uint32_t vp_c16_nfeatures(void) { return c16_nfeatures; }
 
 
 
@@ -122,7 +127,7 @@ void _ZN7QString11reallocDataEjb(char *self, uint32_t alloc, uint8_t grow) { QAD
    and are returned unformatted (logging is outside the property, DESIGN 2.5) */
 #define C16_ARGPAT 8
 void _ZN9QtPrivate12argToQStringE11QStringViewmPPKNS_7ArgBaseE(char *ret, uint64_t psize, char *pat, uint64_t nargs, char *args) { const uint16_t *p = (const uint16_t*)pat;
-  if (psize > C16_ARGPAT) { QSD(ret) = qs_from(p, (uint32_t)psize); return; }
+  if (psize > C16_ARGPAT) { QSD(ret) = C16_EMPTY; return; }   /* log text: not built */
   uint32_t total = 0; for (uint32_t a = 0; a < 2; a++) { if (a >= nargs) break; char *ab = ((char**)args)[a]; const uint16_t *ad = *(const uint16_t**)(ab + 16); uint64_t an = *(uint64_t*)(ab + 8); total += hint16(ad, an); }
   ASSERT(nargs <= 2, "QString::arg model: at most two arguments"); QAD *d = qs_new(0, total + C16_ARGPAT); uint32_t j = 0;
   for (uint32_t i = 0; i < C16_ARGPAT; i++) { if (i >= psize) break;
@@ -237,6 +242,13 @@ uint32_t vp_c16_plain_ref(char *raw, char *user, char *password) { QAD *r = QSD(
 
 /* base64 text of a NON-EMPTY byte string as the abstract placeholder of qt_core.c, built without a branch on the (symbolic) length */
 void vp_c16_b64_text(char *out, char *raw) { QAD *r = QSD(raw); ASSUME(r->f1 > 0); QAD *d = qs_new(1, 1); C16_SD(d)[0] = '@'; ((struct qs*)d)->b64 = qad_ref(r); QSD(out) = d; }
+
+
+/* out = a ++ [ch] ++ b as a fresh block (harness oracle helper) */
+void vp_c16_concat(char *out, char *a, uint16_t ch, char *b) { QAD *A = QSD(a), *B = QSD(b); uint32_t la = A->f1, lb = B->f1; ASSERT(la + 1 + lb <= QS_CAP, "QString capacity of the model exceeded (concat)");
+  QAD *d = qs_new(la + 1 + lb, qs_hint(A) + 1 + qs_hint(B));
+  for (uint32_t i = 0; i < QHINT16(A); i++) { if (i >= la) break; C16_SD(d)[i] = QCH16(A)[i]; } C16_SD(d)[la] = ch;
+  for (uint32_t i = 0; i < QHINT16(B); i++) { if (i >= lb) break; C16_SD(d)[la + 1 + i] = QCH16(B)[i]; } QSD(out) = d; }
 
 /* ---- constant tables: a FRESH block per call whose content is selected by a (possibly symbolic) index ---- */
 #define C16_NAMELEN 36
